@@ -58,12 +58,36 @@ def uniformM (q : Str) : MList → Bool
   | .nil => true
   | .cons _ pkg _ r => (match pkg with | none => true | some p => p == q) && uniformM q r
 
+def litUnsafeName : Str := ['u', 'n', 's', 'a', 'f', 'e']   -- path of the pseudo package whose only type is a *types.Basic
+
+/-- the condition on a named type's package: a package-less type is not called like a basic type;
+    a package path uses path characters and is not the pseudo package of `unsaf`+`e.Pointer` -/
+def namedPkgOk (pkg : Option Str) (name : Str) : Bool :=
+  match pkg with
+  | none => !(reserved.contains name)
+  | some p => pathOk p && pathOf p != litUnsafeName
+
+/-- type arguments the injectivity proof covers: basic types in canonical spelling (no `byte`/`rune`:
+    `typeArgString` does not normalise them — a listed finding), named types without type arguments
+    of their own, and pointers / slices of these; aliases are looked through as `typeArgString` does -/
+def wfArg : GoType → Bool
+  | .alias _ a => wfArg a
+  | .basic k => k != .byte && k != .rune
+  | .pointer e => wfArg e
+  | .slice e => wfArg e
+  | .named _ pkg name sc targs => targs.isNil && identOk name && scOk sc && namedPkgOk pkg name
+  | _ => false
+
+def wfArgs : TList → Bool
+  | .nil => true
+  | .cons t r => wfArg t && wfArgs r
+
 mutual
 /-- well-formedness + the fragment the injectivity proof covers (`ex` = "is this name exported"):
     identifiers and package paths use sane characters; `pkg` is present exactly on non-exported
     names; all non-exported names of one struct / interface belong to one package; an embedded
     field's name is the one its type determines; interface methods have func signatures; named
-    types have no type arguments and no detached scope (`Scope.pos`). -/
+    types have type arguments from `wfArg` only and no detached scope (`Scope.pos`). -/
 def wfT (cfg : Cfg) (ex : Str → Bool) : GoType → Bool
   | .basic _ => true
   | .pointer e => wfT cfg ex e
@@ -76,8 +100,7 @@ def wfT (cfg : Cfg) (ex : Str → Bool) : GoType → Bool
   | .struct fs => wfF cfg ex fs && uniformF (firstPkgF fs) fs
   | .iface ms => wfM cfg ex ms && uniformM (firstPkgM ms) ms
   | .named _ pkg name sc targs =>
-    identOk name && targs.isNil && scOk sc &&
-      (match pkg with | none => !(reserved.contains name) | some p => pathOk p)
+    identOk name && wfArgs targs && scOk sc && namedPkgOk pkg name && (pkg.isSome || targs.isNil)
 def wfL (cfg : Cfg) (ex : Str → Bool) : TList → Bool
   | .nil => true
   | .cons t r => wfT cfg ex t && wfL cfg ex r
@@ -345,21 +368,157 @@ theorem scopeStr_flat (pkg : Option Str) (sc : Scope) (h : scOk sc = true) : Fla
     | path idx => exact scopeIdx_flat idx
     | pos p => simp [scOk] at h
 
-theorem name_named_flat (d : Nat) (pkg : Option Str) (name : Str) (sc : Scope) (targs : TList)
-    (h : wfT cfg ex (.named d pkg name sc targs) = true) : Flat (nameC cfg hc false (.named d pkg name sc targs)) := by
-  simp only [wfT, Bool.and_eq_true] at h
-  obtain ⟨⟨⟨hn, ht⟩, hs⟩, hp⟩ := h
-  cases targs with
-  | cons _ _ => simp [TList.isNil] at ht
-  | nil =>
-    simp only [nameC, namedName, TList.isNil, if_true, List.append_nil]
-    apply flat_append (flat_lit_dollar_dot _ (by decide))
-    cases pkg with
-    | none => exact flat_append (identOk_flat hn) (scopeStr_flat _ _ hs)
-    | some p =>
-      simp only [fullName]
-      exact flat_append (pathChars_flat (pathOf_chars (pathOk_chars hp)))
-        (flat_cons (by decide) (flat_append (identOk_flat hn) (scopeStr_flat _ _ hs)))
+/-! ### rendered type arguments -/
+
+/-- every character is a path character (no blank, newline, tab, bracket, `$`, `*`, `<`, comma, parenthesis) -/
+def Clean (s : Str) : Prop := ∀ c ∈ s, pathChar c = true
+
+theorem clean_append {a b : Str} (ha : Clean a) (hb : Clean b) : Clean (a ++ b) := by
+  intro c hc; simp at hc; rcases hc with h | h; exact ha c h; exact hb c h
+
+theorem clean_cons {c : Char} {s : Str} (hc : pathChar c = true) (hs : Clean s) : Clean (c :: s) := by
+  intro x hx; simp at hx; rcases hx with rfl | h; exact hc; exact hs x h
+
+theorem clean_nil : Clean [] := by intro c hc; simp at hc
+
+theorem clean_flat {s : Str} (h : Clean s) : Flat s := fun c hc => pathChar_flat (h c hc)
+
+theorem identOk_clean {s : Str} (h : identOk s = true) : Clean s := by
+  have := (identOk_all h).1
+  simp only [List.all_eq_true] at this
+  exact fun c hc => hashChar_path (identChar_hash (this c hc))
+
+theorem isDigit_path {c : Char} (h : isDigit c = true) : pathChar c = true := by
+  simp only [isDigit, Bool.and_eq_true, decide_eq_true_eq] at h
+  simp only [pathChar, Bool.and_eq_true, bne_iff_ne, ne_eq]
+  refine ⟨⟨⟨⟨⟨⟨⟨⟨⟨?_, ?_⟩, ?_⟩, ?_⟩, ?_⟩, ?_⟩, ?_⟩, ?_⟩, ?_⟩, ?_⟩ <;> (intro hc; subst hc; revert h; decide)
+
+theorem scopeStr_clean (pkg : Option Str) (sc : Scope) (h : scOk sc = true) : Clean (scopeStr pkg sc) := by
+  unfold scopeStr
+  cases pkg with
+  | none => exact clean_nil
+  | some p =>
+    cases sc with
+    | pkg => exact clean_nil
+    | path idx =>
+      intro c hc
+      simp at hc
+      obtain ⟨i, _, h⟩ := hc
+      rcases h with rfl | h
+      · decide
+      · exact isDigit_path (dec_isDigit i c h)
+    | pos p => simp [scOk] at h
+
+/-- what the rest of the proof needs to know about a rendered type argument / argument list -/
+structure ArgInv (s : Str) : Prop where
+  nl : '\n' ∉ s
+  dollar : '$' ∉ s
+  bal : Balanced s
+
+theorem argInv_clean {s : Str} (h : Clean s) : ArgInv s :=
+  ⟨flat_nl (clean_flat h), pathChars_nodollar h, flat_balanced (clean_flat h)⟩
+
+theorem argInv_append {a b : Str} (ha : ArgInv a) (hb : ArgInv b) : ArgInv (a ++ b) :=
+  ⟨by simp [ha.nl, hb.nl], by simp [ha.dollar, hb.dollar], balanced_append ha.bal hb.bal⟩
+
+theorem namedPkgOk_some {p name : Str} (h : namedPkgOk (some p) name = true) : pathOk p = true ∧ pathOf p ≠ litUnsafeName := by
+  simpa [namedPkgOk] using h
+
+/-- a type argument of the covered fragment renders without newline, `$`, top-level comma, and balanced;
+    named arguments and basic names are `Clean`, pointer / slice prefixes add `*` / `[]` -/
+theorem argStr_inv : ∀ (t : GoType), wfArg t = true → ArgInv (argStr t) ∧ ',' ∉ argStr t ∧ argStr t ≠ []
+  | .alias _ a, h => by simpa [argStr] using argStr_inv a (by simpa [wfArg] using h)
+  | .basic k, _ => by
+    simp only [argStr]
+    cases k <;> exact ⟨⟨by decide, by decide, balanced_plain _ (by decide) (by decide)⟩, by decide, by decide⟩
+  | .pointer e, h => by
+    obtain ⟨i, c, _⟩ := argStr_inv e (by simpa [wfArg] using h)
+    simp only [argStr]
+    refine ⟨?_, by simp [c], by simp⟩
+    have : ArgInv ['*'] := ⟨by decide, by decide, balanced_plain _ (by decide) (by decide)⟩
+    exact argInv_append this i
+  | .slice e, h => by
+    obtain ⟨i, c, _⟩ := argStr_inv e (by simpa [wfArg] using h)
+    simp only [argStr]
+    refine ⟨?_, by simp [c], by simp⟩
+    have : ArgInv ['[', ']'] := ⟨by decide, by decide, balanced_bracket (s := []) balanced_nil⟩
+    exact argInv_append this i
+  | .named _ pkg name sc targs, h => by
+    simp only [wfArg, Bool.and_eq_true] at h
+    obtain ⟨⟨⟨ht, hn⟩, hs⟩, hp⟩ := h
+    have hc : Clean (argStr (.named _ pkg name sc targs)) := by
+      simp only [argStr, ht, if_true, List.append_nil]
+      cases pkg with
+      | none => exact clean_append (identOk_clean hn) (scopeStr_clean _ _ hs)
+      | some p =>
+        exact clean_append (pathOf_chars (pathOk_chars (namedPkgOk_some hp).1))
+          (clean_cons (by decide) (clean_append (identOk_clean hn) (scopeStr_clean _ _ hs)))
+    refine ⟨argInv_clean hc, ?_, ?_⟩
+    · intro hm; have := hc _ hm; revert this; decide
+    · simp only [argStr, ht, if_true, List.append_nil]
+      have hne := (identOk_all hn).2
+      cases pkg <;> simp [hne]
+  | .array _ _, h => by simp [wfArg] at h
+  | .map _ _, h => by simp [wfArg] at h
+  | .chan _ _, h => by simp [wfArg] at h
+  | .func _ _ _, h => by simp [wfArg] at h
+  | .struct _, h => by simp [wfArg] at h
+  | .iface _, h => by simp [wfArg] at h
+
+theorem argStrs_inv : ∀ (l : TList), wfArgs l = true → ArgInv (argStrs l)
+  | .nil, _ => by simp only [argStrs]; exact argInv_clean clean_nil
+  | .cons t r, h => by
+    simp only [wfArgs, Bool.and_eq_true] at h
+    have it := (argStr_inv t h.1).1
+    have ir := argStrs_inv r h.2
+    simp only [argStrs]
+    split
+    · exact it
+    · have : ArgInv [','] := ⟨by decide, by decide, balanced_plain _ (by decide) (by decide)⟩
+      have := argInv_append it (argInv_append this ir)
+      simpa using this
+
+/-- `[` args `]`, or nothing -/
+def argsPart (targs : TList) : Str := if targs.isNil then [] else '[' :: argStrs targs ++ [']']
+
+theorem argsPart_inv (targs : TList) (h : wfArgs targs = true) : ArgInv (argsPart targs) := by
+  unfold argsPart
+  split
+  · exact argInv_clean clean_nil
+  · have i := argStrs_inv targs h
+    exact ⟨by simp [i.nl], by simp [i.dollar], balanced_bracket i.bal⟩
+
+theorem namedName_eq (name : Str) (targs : TList) : namedName name targs = name ++ argsPart targs := rfl
+
+theorem name_named_shape {cfg : Cfg} {ex : Str → Bool} (d : Nat) (pkg : Option Str) (name : Str) (sc : Scope) (targs : TList)
+    (h : wfT cfg ex (.named d pkg name sc targs) = true) :
+    identOk name = true ∧ wfArgs targs = true ∧ scOk sc = true ∧ namedPkgOk pkg name = true ∧ (pkg.isSome = true ∨ targs = .nil) := by
+  simp only [wfT, Bool.and_eq_true, Bool.or_eq_true] at h
+  obtain ⟨⟨⟨⟨hn, ht⟩, hs⟩, hp⟩, hq⟩ := h
+  refine ⟨hn, ht, hs, hp, ?_⟩
+  rcases hq with hq | hq
+  · exact Or.inl hq
+  · right; cases targs with
+    | nil => rfl
+    | cons _ _ => simp [TList.isNil] at hq
+
+theorem name_named_inv' {cfg : Cfg} {ex : Str → Bool} {hc : Str → Str} (d : Nat) (pkg : Option Str) (name : Str) (sc : Scope) (targs : TList)
+    (h : wfT cfg ex (.named d pkg name sc targs) = true) :
+    ArgInv (nameC cfg hc false (.named d pkg name sc targs)) := by
+  obtain ⟨hn, ht, hs, hp, _⟩ := name_named_shape d pkg name sc targs h
+  simp only [nameC, namedName_eq]
+  have i1 : ArgInv llgoPrefix := ⟨by decide, by decide, balanced_plain _ (by decide) (by decide)⟩
+  have i2 : ArgInv (name ++ argsPart targs ++ scopeStr pkg sc) :=
+    argInv_append (argInv_append (argInv_clean (identOk_clean hn)) (argsPart_inv targs ht)) (argInv_clean (scopeStr_clean _ _ hs))
+  apply argInv_append i1
+  cases pkg with
+  | none => simpa [fullName] using i2
+  | some p =>
+    simp only [fullName]
+    have i3 : ArgInv (pathOf p ++ ['.']) :=
+      argInv_clean (clean_append (pathOf_chars (pathOk_chars (namedPkgOk_some hp).1)) (clean_cons (by decide) clean_nil))
+    have := argInv_append i3 i2
+    simpa using this
 
 /-- no newline, balanced brackets -/
 def Inv (s : Str) : Prop := '\n' ∉ s ∧ Balanced s
@@ -419,7 +578,9 @@ theorem name_inv : ∀ (t : GoType), wfT cfg ex t = true → Inv (nameC cfg hc f
   | .iface ms, h => by
     simp only [wfT, Bool.and_eq_true] at h
     exact inv_flat (name_iface_flat hclean ms h.1)
-  | .named d pkg name sc targs, h => inv_flat (name_named_flat d pkg name sc targs h)
+  | .named d pkg name sc targs, h => by
+    have := name_named_inv' (hc := hc) d pkg name sc targs h
+    exact ⟨this.nl, this.bal⟩
 
 end
 
@@ -597,27 +758,25 @@ theorem class_name : ∀ (t : GoType), wfT cfg ex t = true → classOf (nameC cf
             simp [this])]
         simp
   | .named d pkg name sc targs, h => by
-    rw [classOf_flat (name_named_flat d pkg name sc targs h)]
-    simp only [wfT, Bool.and_eq_true] at h
-    obtain ⟨⟨⟨hn, ht⟩, hs⟩, hp⟩ := h
-    cases targs with
-    | cons _ _ => simp [TList.isNil] at ht
-    | nil =>
-      simp only [nameC, namedName, TList.isNil, if_true, List.append_nil, typeClass]
-      have hnd := identOk_notin hn
-      cases pkg with
-      | none =>
-        simp only [fullName, Option.isNone_none, if_true, scopeStr_none_nodot, List.append_nil]
-        rw [atomClass_plain]
-        · simp [llgoPrefix, hnd.2.1]
-        · simp [llgoPrefix, hnd.1]
-      | some p =>
-        simp only [fullName, Option.isNone_some, Bool.false_eq_true, if_false]
-        rw [atomClass_dotted]
-        · have h1 := pathChars_nodollar (pathOf_chars (pathOk_chars hp))
-          have h2 := scopeStr_nodollar (some p) sc
-          simp [llgoPrefix, h1, h2, hnd.2.1]
-        · simp
+    have inv := name_named_inv' (hc := hc) d pkg name sc targs h
+    obtain ⟨hn, ht, hs, hp, _⟩ := name_named_shape d pkg name sc targs h
+    have hd : headOf (nameC cfg hc false (.named d pkg name sc targs)) = .atom := by
+      simp [nameC, headOf, llgoPrefix, litMapOpen]
+    simp only [classOf, hd, typeClass]
+    have hnd := identOk_notin hn
+    cases pkg with
+    | none =>
+      simp only [Option.isNone_none, if_true]
+      rw [atomClass_plain inv.dollar]
+      simp only [nameC, fullName, scopeStr_none_nodot, List.append_nil, namedName_eq]
+      rcases ‹(none : Option Str).isSome = true ∨ targs = .nil› with h' | h'
+      · simp at h'
+      · subst h'
+        simp [argsPart, TList.isNil, llgoPrefix, hnd.1]
+    | some p =>
+      simp only [Option.isNone_some, Bool.false_eq_true, if_false]
+      rw [atomClass_dotted inv.dollar]
+      simp [nameC, fullName]
 
 end
 
